@@ -105,7 +105,7 @@ pub struct Program {
     pub pre_past: Option<u32>,
 }
 
-pub const STARTS: [u64; 6] = [0, 1, 1_000_000_000, 10_000_000_000, 12_345_678_000_000, 2_500_000];
+pub const STARTS: [u64; 8] = [0, 1, 1_000_000_000, 10_000_000_000, 12_345_678_000_000, 2_500_000, 1_250_000_000, 3_700_000_001];
 
 pub fn delta_strategy(tie_bias: bool) -> impl Strategy<Value = Delta> {
     let (wz, wt) = if tie_bias { (8, 8) } else { (4, 3) };
@@ -148,6 +148,8 @@ pub fn small_params() -> impl Strategy<Value = QParams> {
             t_ns: [1, 2, 7, 1_000, 1_000_000, 2_500_000][b],
         }),
         2 => Just(QParams { n: 1028, t_ns: 2_500_000 }),
+        // bucket widths that do not divide a second
+        1 => (0usize..3, 0usize..3).prop_map(|(a, b)| QParams { n: [2, 5, 128][a], t_ns: [300_000_000, 7_000_000, 30_100_000][b] }),
         1 => crate::cq::params_strategy(),
     ]
 }
